@@ -27,9 +27,12 @@ ShardInit ==
 ---------------------------------------------------------------------------
 (* Well-formedness of the id bookkeeping (C01 / C10, id half)             *)
 
+\* (injectivity is stated through cardinalities: linear instead of quadratic
+\* for TLC, which matters when traces with thousands of points are validated)
+Injective(f) == Cardinality({f[i] : i \in DOMAIN f}) = Cardinality(DOMAIN f)
 Bijection ==
   /\ DOMAIN nodeOf = DOMAIN pts
-  /\ \A i, j \in DOMAIN nodeOf : i # j => nodeOf[i] # nodeOf[j]
+  /\ Injective(nodeOf)
 FreeDisjointLive == \A i \in DOMAIN nodeOf : nodeOf[i] \notin free
 NextBoundsAll ==
   /\ \A i \in DOMAIN nodeOf : nodeOf[i] >= 2 /\ nodeOf[i] < next
@@ -42,7 +45,7 @@ ShardWF == Bijection /\ FreeDisjointLive /\ NextBoundsAll /\ CountIsCard
 AllocOK(N, F, X, D) ==
   /\ DOMAIN N = D
   /\ \A i \in D \cap DOMAIN nodeOf : N[i] = nodeOf[i]
-  /\ \A i, j \in D : i # j => N[i] # N[j]
+  /\ Injective(N)
   /\ \A i \in D : N[i] >= 2 /\ N[i] < X /\ N[i] \notin F
   /\ \A n \in F : n >= 2 /\ n < X
   /\ X >= next
